@@ -260,7 +260,7 @@ func c02Run(x *runCtx, r *rand.Rand, c c02Config, s c02Scenario) {
 			later(0, -1, 0, "plain")
 		}
 		// the session is dead now if anything was refused; two more tries on fresh sessions
-		for i, v := range []string{"plain", "self", "zero-keys"} {
+		for i, v := range []string{"plain", "self", "zero-keys", "plain-unknown-length"} {
 			send(hello(1))
 			k := len(rw.sess) - 1
 			if !s.skip && i == 0 {
